@@ -60,6 +60,7 @@ type SQLSite struct {
 	DynamicArgs bool
 	Holes       int
 	IsSchema    bool // executes the embedded schema script
+	evalFrame   *frame // when set, positional bindings are evaluated in this calling context
 }
 
 func (s *SQLSite) key(m *Model, v *Variant) string {
@@ -88,7 +89,11 @@ func (s *SQLSite) bindingFor(p *sqlp.Expr) (Binding, bool) {
 		return Binding{}, false
 	}
 	if p.Param >= 1 && p.Param <= len(s.Positional) {
-		return Binding{V: s.Positional[p.Param-1], Fr: topFrame(s.Fn)}, true
+		fr := topFrame(s.Fn)
+		if s.evalFrame != nil {
+			fr = s.evalFrame
+		}
+		return Binding{V: s.Positional[p.Param-1], Fr: fr}, true
 	}
 	return Binding{}, false
 }
